@@ -67,6 +67,12 @@ def equal_mod_ids(src, cp, idmap, path="copy"):
     cpg = sorted((g["name"], tuple(sorted(g["props"]))) for g in cp["pgs"])
     if sp != cpg:
         return f"{path}: property groups {sp} became {cpg}"
+    # the order of the members is part of a group (dip direction before dip, x y z of a vector)
+    so = {name: [m.get(p, p) for p in order] for name, order in (src.get("pg_order") or {}).items()}
+    co = cp.get("pg_order") or {}
+    for name in sorted(so):
+        if name in co and so[name] != co[name] and sorted(so[name]) == sorted(co[name]):
+            return f"{path}: pgorder of {name} {so[name]} became {co[name]}"
     sk = sorted(src["kids"], key=wsh.shape_sig)
     ck = sorted(cp["kids"], key=wsh.shape_sig)
     if len(sk) != len(ck):
@@ -205,9 +211,23 @@ def class_sweep(ctx):
     ctx.extra["sweep_skipped"] = sorted(set(skipped))
 
 
+def directed(rng, ops):
+    """Half of the histories start with an object that has several data sets and a property group listing some of them in
+    reverse order, followed by copies."""
+    if rng.random() < 0.5:
+        return ops
+    r = lambda: rng.randrange(1 << 20)  # noqa: E731
+    a1, a2 = r(), r()
+    block = [{"k": "create_object", "a": r(), "b": r(), "c": r(), "uid": None}]
+    block += [{"k": "add_data", "a": a1, "b": r(), "c": 1 + 3 * r(), "uid": None} for _ in range(rng.randrange(2, 5))]
+    block += [{"k": "pg_add", "a": a2, "b": r(), "c": 4 * r(), "uid": None} for _ in range(rng.randrange(2, 4))]
+    block += [{"k": "copy", "a": r(), "b": r(), "c": r(), "uid": None} for _ in range(rng.randrange(1, 4))]
+    return block + ops
+
+
 def run(ctx: Ctx):
     class_sweep(ctx)
-    wscheck.run_props(ctx, WANT, weights=WEIGHTS, n_quick=40, n_thorough=1000, post=copy_oracle)
+    wscheck.run_props(ctx, WANT, weights=WEIGHTS, n_quick=40, n_thorough=1000, post=copy_oracle, shape=directed)
 
 
 def replay(ctx: Ctx, payload):
